@@ -533,6 +533,13 @@ func waitExpiry(r *mon.Run, idx int, lb *fasthttp.LBClient, lastStart, lastEnd m
 				end = te
 			}
 			if s.Penalty != 0 && tBefore.After(end.Add(penaltyLifetime+expirySlack)) {
+				if meter.maxLag(end, tBefore) > stallLimit {
+					// the expiry timers run on the same (stalled) scheduler as the heartbeat
+					r.Event("skipped_process_stalled", 1)
+					r.Event("expiry_waits", 1)
+					r.Inconclusive(what + ": penalty still present after 3s+slack, but the process heartbeat was stalled")
+					return
+				}
 				r.Violation(idx, "penalty-not-expired", fmt.Sprintf("%s: c%d still carries penalty %d at %v after its last penalised call returned (3s + %v slack)", what, s.Client.(*fake).id, s.Penalty, tBefore.Sub(end), expirySlack),
 					map[string]any{"scenario": what, "state": fmtState(st)})
 				r.Event("expiry_waits", 1)
@@ -596,14 +603,18 @@ func expirySequential(r *mon.Run, idx int, rnd *rand.Rand) {
 	waitExpiry(r, idx, lb, lastStart, lastEnd, tAll, fmt.Sprintf("expiry-seq-%d", idx))
 }
 
+var meter *stallMeter
+
 func TestC40(t *testing.T) {
 	r := mon.Start(t, "C40")
 	defer r.Finish()
 	r.Rule("sequential history = fresh LBClient with 1-4 scripted fake BalancingClients, 20-200 (sometimes ~1000, 95% failing) steps of Do/DoTimeout/DoDeadline with scripted pending values, errors/500s, three HealthCheck kinds, AddClient/RemoveClients (incl. remove-all); each call judged against the (pending+penalty,total)-minimal set of a same-goroutine VerifLBState snapshot. burst = 4-16 goroutines x 40-250 calls with concurrent membership churn; expiry = poll VerifLBState after penalised calls. distinct = (clients, healthcheck, failure rate, pending range, membership ops, cap reached, empty set seen); non-trivial = at least one judged step where the minimal set was a strict subset of the clients")
 	r.Assume("ties are broken by LBClient's own per-client total as exposed by VerifLBState (requests that were not penalised); whether a penalised request counts as 'completed' is not judged")
 	r.Assume("LBClient.Clients is non-empty when the LBClient is first used (documented precondition: an empty initial list panics by design and is not exercised); the empty set is reached through RemoveClients")
-	r.Assume("a step during which an expiry timer changed a penalty (second snapshot differs) is not judged; Go timers never fire early (lower bound of the 3s penalty lifetime needs no slack); upper bound uses 6s slack against a stall that is unbounded")
+	r.Assume("a step during which an expiry timer changed a penalty (second snapshot differs) is not judged; Go timers never fire early (lower bound of the 3s penalty lifetime needs no slack); upper bound uses 6s slack against a stall that is unbounded, and is not judged if the process heartbeat (20 ms ticks) was more than 1 s late in that window")
 
+	meter = startStallMeter()
+	defer close(meter.stop)
 	var chosen atomic.Int64
 	fasthttp.VerifSetPointHook(func(name string) {
 		if name == "lb.chosen" {
@@ -686,6 +697,7 @@ func TestC40(t *testing.T) {
 	})
 	bg.Wait()
 	r.Event("lb_chosen_points", int(chosen.Load()))
+	r.Set("worst_heartbeat_lag_ms", meter.worst().Milliseconds())
 	if !r.Replaying() {
 		r.Require("steps_judged", nSeq*20)
 		r.Require("steps_constrained_choice", nSeq)
